@@ -301,25 +301,31 @@ def run_impl(module, cases, hashseeds, per_case_timeout=10, shards=None, retry_d
     # a time-out under load is not evidence of anything: every timed-out case is run again, alone, with a much larger budget;
     # only a case that still does not finish keeps its {"timeout": true} observable
     slow = [i for i, o in enumerate(res) if isinstance(o, dict) and o.get("timeout") and not retry_done]
-    if slow:
-        by_hs = {}
-        for i in slow:
-            by_hs.setdefault(res[i].get("_hs", hashseeds[0]), []).append(i)
-        for hs, part in by_hs.items():
+    # the retries go in small batches; once 6 cases in a row still do not finish when run alone the hang is systematic (these
+    # persistent time-outs are reported as they are) and the remaining ones are not retried
+    persistent = 0
+    for b in range(0, len(slow), 3):
+        if persistent >= 6:
+            break
+        for i in slow[b:b + 3]:
+            hs = res[i].get("_hs", hashseeds[0])
             fin = os.path.join(d, "impl_retry_in.json")
             fout = os.path.join(d, "impl_retry_out.json")
             with open(fin, "w") as fh:
-                json.dump([cases[i] for i in part], fh)
+                json.dump([cases[i]], fh)
             p = subprocess.run([PY, os.path.join(ROOT, "harness", "impl_worker.py"), module, fin, fout, str(max(60, 8 * per_case_timeout))],
                                env=impl_env(hs), cwd=d, capture_output=True, text=True)
             if p.returncode != 0 or not os.path.exists(fout):
                 raise HarnessError("impl worker failed on retry (%s): %s" % (module, p.stderr[-2000:]))
-            for i, o in zip(part, json.load(open(fout))):
-                if isinstance(o, dict):
-                    o["_hs"] = hs
-                    if not o.get("timeout"):
-                        o["_retried_after_timeout"] = True
-                res[i] = o
+            o = json.load(open(fout))[0]
+            if isinstance(o, dict):
+                o["_hs"] = hs
+                if not o.get("timeout"):
+                    o["_retried_after_timeout"] = True
+                    persistent = 0
+                else:
+                    persistent += 1
+            res[i] = o
     return res
 
 
